@@ -25,6 +25,7 @@ from xknx.knxip import (
 from xknx.knxip.dib import DIBSecuredServiceFamilies, DIBSuppSVCFamilies
 from xknx.telegram import IndividualAddress
 
+print(xknx.__file__)
 
 GW_IP = "10.1.2.3"
 
